@@ -38,6 +38,11 @@ def make_cases(ctx: Ctx):
         gs["h"] = np.full_like(gs["h"], 4096.0)
         npart = int(r.choice([1, 3, 8]))
         parts = [[float(r.uniform(4, 8)), float(r.uniform(4, 6)), float(r.uniform(100, 1000)), 1, 1] for _ in range(npart)]
+        if k % 6 == 3 and npart >= 3:
+            # particles that are kept but not moved (settled, stranded) in front of free ones: each free particle still
+            # gets its own draw, the settled ones stay where they are
+            parts[0][4] = 0
+            parts[2][4] = 0 if npart > 3 else 1
         nsteps = 3
         draws = []
         for _ in range(nsteps):
@@ -157,7 +162,9 @@ def run(ctx: Ctx):
                     coef = math.sqrt(2 * c["D"] * c["dt"]) / own_dx(c, px[k], py[k])       # the property: variance 2 D dt / dx²
                     ex, ey = coef * dr[k], coef * dr[npart + k]
                     mdisp = bits2float(w[wi][1]); wi += 1
-                    if s["alive"][k] and abs((s["X"][k] - px[k]) - mdisp) > 1e-12 * (1 + abs(px[k])):
+                    if not c["particles"][k][4]:
+                        ex = ey = 0.0          # not active: not moved horizontally (C09), whatever its draw
+                    elif s["alive"][k] and abs((s["X"][k] - px[k]) - mdisp) > 1e-12 * (1 + abs(px[k])):
                         bad = dict(step=n, particle=k, what="tie", implementation=s["X"][k] - px[k], model=mdisp)
                 if c["Dz"] > 0:
                     off = 2 * npart if c["D"] > 0 else 0
